@@ -101,7 +101,7 @@ claim("C10", "other",
       "abstract interpretation with a finiteness/sign lattice (+ exponent intervals) over typed HIR",
       "DESIGN.md 5.C10")
 claim("C12", "other",
-      "NARROW claim (linalg configuration). Structural: the singular-pivot guard of LU::new tree-dominates every division by the pivot of the same iteration, the guarded quantity is the column maximum of |a[(k,i)]|.re() over the remaining rows with its row recorded, LU values can only be produced by LU::new; branch conditions use real parts, counters, sizes or the scalar's own comparison items. Formula level (element-wise abstract interpretation of the loop nests with symbolic indices, arrays named by the role they are returned in): LU::new is Doolittle elimination with whole-row partial pivoting statement by statement, on every path row exchange / permutation exchange / parity counter move together; solve and inverse are forward/back substitution on the permuted right-hand side (inverse: permuted unit vectors); determinant is the product of the pivots negated exactly for odd parity; the Jacobi sweep uses the textbook t, c, s, tau and rotation formulas on all four index ranges, updates diagonal/accumulator, annihilates a_pq, and the final selection sort is ascending and exchanges eigenvector columns with their eigenvalues; the field-trait methods nalgebra's decompositions call and the element operations (+ - * /, compound assignment, also with absent derivative parts) are the verified dual operations. NOT decided (declared out of reach): A x = b, A A^-1 = I, A V = V diag(lambda), Jacobi's formula, Hellmann-Feynman, convergence, tolerances, nalgebra's own decompositions.",
+      "NARROW claim (linalg configuration). Guard (decided on the interpreted paths of LU::new): some path reports an error; every path that divides by the pivot has excluded a zero pivot magnitude; the tested magnitude is |a[m,i]| for the row m searched over the remaining rows i..n and that element is the pivot divided by (m = i or rows exchanged); LU values can only be produced by LU::new; branch conditions use real parts, counters, sizes or the scalar's own comparison items. Formula level (element-wise abstract interpretation of the loop nests and iterator pipelines with symbolic indices, store-to-load forwarding, composition of per-element effects with canonical sums, arrays named by the role they are returned in): LU::new is Doolittle elimination with whole-row partial pivoting statement by statement, on every path row exchange / permutation exchange / parity counter move together; solve and inverse are forward/back substitution on the permuted right-hand side (inverse: permuted unit vectors); determinant is the product of the pivots negated exactly for odd parity; the Jacobi sweep stops early only on a quantity over the whole strict upper triangle, rotates only on paths excluding a_pq = 0, drops an element without rotation only after testing both diagonal elements, uses the textbook t, c, s, tau and rotation formulas on all four index ranges, updates diagonal/accumulator, annihilates a_pq, and the final selection sort is ascending and exchanges eigenvector columns with their eigenvalues; the field-trait methods nalgebra's decompositions call and the element operations (+ - * /, compound assignment, also with absent derivative parts) are the verified dual operations. NOT decided (declared out of reach): A x = b, A A^-1 = I, A V = V diag(lambda), Jacobi's formula, Hellmann-Feynman, convergence, tolerances, nalgebra's own decompositions.",
       "trusted: rustc type checker and name resolution, the exporter, structural walkers; no loop invariants of the numerical algorithms are established",
       "tree-dominance and pairing rules on structured typed HIR",
       "DESIGN.md 5.C12")
